@@ -54,7 +54,8 @@ def lane(k):
                         entry["caught_by"].append(chk)
                         entry.setdefault("first", v[0][:300])
                     else:
-                        entry.setdefault("missed_by", []).append({"check": chk, "rc": rc, "last": (out.strip().splitlines() or [""])[-1][:200]})
+                        entry.setdefault("missed_by", []).append({"check": chk, "rc": rc, "last": (out.strip().splitlines() or [""])[-1][:200],
+                                                                  "tail": out.strip().splitlines()[-25:] if rc not in (0, 1) else []})
                 entry["caught"] = bool(entry["caught_by"])
                 sh("git -C %s checkout -- ." % wt)
                 sh("find %s -name __pycache__ -prune -exec rm -rf {} +" % wt)
